@@ -311,6 +311,9 @@ func c16Aim(rng *RNG, schemas ast.Schemas) {
 		// the same operator several times with different parameters
 		ast.NewStructField("login", withConstraints(ast.String(), ast.TypeConstraint{Op: ast.NotEqualOp, Args: []any{""}}, ast.TypeConstraint{Op: ast.NotEqualOp, Args: []any{"root"}}, ast.TypeConstraint{Op: ast.NotEqualOp, Args: []any{"admin"}}), ast.Required()),
 		ast.NewStructField("label", withConstraints(ast.String(), ast.TypeConstraint{Op: ast.MinLengthOp, Args: []any{int64(1)}}, ast.TypeConstraint{Op: ast.MaxLengthOp, Args: []any{int64(64)}}, ast.TypeConstraint{Op: ast.MinLengthOp, Args: []any{int64(3)}})),
+		// names that differ only by letter case are different fields
+		ast.NewStructField("id", ast.String(), ast.Required()),
+		ast.NewStructField("ID", ast.NewScalar(ast.KindInt64)),
 		// "re-exported" names: a chain of references whose hops carry the same object name in different packages
 		ast.NewStructField("sameNameKind", ast.NewRef(a.Package, "Reexported"), ast.Required()),
 	)))
